@@ -145,7 +145,7 @@ pub fn run(tier: Tier, seed: u64) -> i32 {
             let (name, script) = first_mutation_scripts(cs).swap_remove(i as usize % n_scripts);
             for k in 0..kmax {
                 let mut ops = populate_ops(cs);
-                ops.push(Op::FaultNext { k, hold: script.len() as u8, interrupted: false });
+                ops.push(Op::FaultNext { k, hold: script.len() as u8, interrupted: false, burst: 0 });
                 ops.extend(script.iter().cloned());
                 ops.push(Op::CreateFile { via: 0, path: "zz after the fault".into(), keep: 2 });
                 ops.push(Op::Write { h: 1, len: 10, seed: 9 });
